@@ -785,6 +785,53 @@ class SBuf(object):
     __lt__ = __gt__ = __le__ = __ge__ = lambda self, o: self._lt(o, 0)
 
 
+class SRegion(object):
+    """A byte buffer of *symbolic length* whose content is not modelled.
+
+    Used for allocations such as bytearray(n) with symbolic n (array buffers): only lengths
+    and slice bounds are tracked. Slicing follows Python's clamping rules for step 1 and
+    non-negative bounds; `off`/`n` of the result are terms relative to the root buffer.
+    """
+
+    def __init__(self, n, off=0, root=None, kind='bytearray'):
+        self.n = n
+        self.off = off
+        self.root = root if root is not None else self
+        self.kind = kind
+        self.writes = []       # (off, n) regions written, on the root
+
+    def __len__(self):
+        return engine().concretize(self.n)
+
+    def length(self):
+        return self.n
+
+    def __getitem__(self, i):
+        if not isinstance(i, slice) or i.step not in (None, 1):
+            raise Unsupported('only contiguous slices of a symbolic-length buffer')
+        n = self.n
+        start = 0 if i.start is None else i.start
+        stop = n if i.stop is None else i.stop
+        neg = Or(start < 0, stop < 0)
+        if bool(neg):
+            raise Unsupported('negative slice bound on a symbolic-length buffer')
+        start = Min(start, n)
+        stop = Max(Min(stop, n), start)
+        return SRegion(stop - start, self.off + start, self.root, 'view' if self.kind == 'view' else self.kind)
+
+    def __setitem__(self, i, v):
+        tgt = self[i] if isinstance(i, slice) else None
+        if tgt is None:
+            raise Unsupported('item store into a symbolic-length buffer')
+        ln = len(v) if not isinstance(v, SRegion) else v.n
+        if self.kind == 'view' and not bool(tgt.n == ln):
+            raise ValueError('memoryview assignment: lvalue and rvalue have different structures')
+        self.root.writes.append((tgt.off, tgt.n))
+
+    def __bool__(self):
+        return bool(self.n > 0)
+
+
 def cells_equal(ca, cb):
     """Equality of two equally long byte-cell lists (non-forking).
 
